@@ -1,5 +1,6 @@
 import LeptosModel.Model.Keyed
 import LeptosModel.Proofs.KeyedSummary
+import LeptosModel.Proofs.KeyedFinal
 /-!
 # C11 — keyed lists keep item identity and end in the new order
 
@@ -8,8 +9,19 @@ Model: `LeptosModel/Model/Keyed.lean` (tachys/src/view/keyed.rs `diff`, `group_a
 insert_before_this}` over a parent whose child list is `pre ++ item blocks ++ marker :: post`).
 
 All theorems quantify over ALL key sequences `to` without duplicates (any length) and all list states
-`s` that satisfy `Wf` (no holes, one item per key of `hashed_items`, in order, no key twice) — the
-states `build` and `rebuild` produce (`C11_build_wf`, `C11_storage_is_to`).  Lemmas: `Proofs/Keyed*.lean`.
+`s` that satisfy `Wf` (no holes, one item per key of `hashed_items`, in order, no key twice; so the old
+sequence `s.hashed` is any duplicate-free sequence) — `rebuild` preserves `Wf` (`C11_storage_is_to`).
+The DOM theorems additionally take `Mounted pre post s` for ARBITRARY sibling lists `pre`, `post` and
+arbitrary block sizes (every item owns ≥ 1 node).  Lemmas: `Proofs/Keyed*.lean` (core Lean only).
+
+| theorem | status |
+|---|---|
+| `C11_unpack_complete`, `C11_unpack_complete_diff`, `C11_group_complete` | full |
+| `C11_storage_is_to`, `C11_identity`, `C11_identity_nodes_leave`, `C11_set_index` | full |
+| `C11_dom_order_full` | refuted: `C11_dom_order_witness` (`[0,1,2] → [4,3,2,1,0]`, F-C11-1) |
+| `C11_dom_order_partial` | under `settledMonotone s.hashed to` (decidable; negation = known-finding class) |
+| `C11_history` | full (storage / identity / set_index at every step of every history) |
+| `C11_history_dom_order_partial` | under `settledHistory` (= `settledMonotone` at every step) |
 -/
 namespace Leptos.Keyed
 
@@ -109,5 +121,140 @@ theorem C11_set_index (s : KState) (to : List Key) (hs : Wf s) (hto : to.Nodup) 
     ∀ (k : Key) (i : Nat), (k, i) ∈ (rebuild s to).w.log.setIndex ↔
       k ∈ s.hashed ∧ to[i]? = some k ∧ s.hashed[i]? ≠ some k :=
   ⟨(rebuild_summary s to hs hto).setIndex_nodup, (rebuild_summary s to hs hto).setIndex_mem⟩
+
+/-- … and the nodes of an item whose key vanished are no longer children of the parent (for a list
+that is mounted in order; the order AFTER the update does not matter here). -/
+theorem C11_identity_nodes_leave (s : KState) (to : List Key) (pre post : List NodeId) (hs : Wf s)
+    (hm : Mounted pre post s) (hto : to.Nodup) :
+    ∀ r ∈ somes s.w.storage, r.key ∉ to → ∀ n ∈ r.nodes, n ∉ (rebuild s to).w.kids :=
+  rebuild_removed_nodes_leave s to pre post hs hm hto
+
+/-! ## DOM order -/
+
+/-- the full statement: wherever the list sits (`pre`, `post` arbitrary), after `rebuild` the parent's
+children are `pre`, the blocks of the items keyed `to` in that order, the marker, `post`.
+**False of the code as it is** (`C11_dom_order_witness`, finding F-C11-1). -/
+def C11_dom_order_full : Prop :=
+  ∀ (s : KState) (to : List Key) (pre post : List NodeId), Wf s → Mounted pre post s → to.Nodup →
+    (rebuild s to).w.kids
+      = pre ++ blocksOf (rebuild s to).w.storage ++ (rebuild s to).marker :: post
+
+/-- the witness state: `keyed([0,1,2])`, one node per item, built and mounted into an empty parent -/
+def witnessState : KState := (build 1 [0, 1, 2] [] 0).mount none
+
+theorem witnessState_wf : Wf witnessState := ⟨by decide, by decide, by decide⟩
+
+theorem witnessState_mounted : Mounted [] [] witnessState :=
+  ⟨by decide, by decide, by decide, by decide, by decide⟩
+
+/-- `[0,1,2] → [4,3,2,1,0]`: the storage is `4,3,2,1,0` but the children of the parent end as the
+nodes of `1,4,3,2,0` (item 1, index 1 → 3, is not moved in the DOM because two items were added
+before it — but it has overtaken item 2, which rests). Kernel-checked by evaluation of the model;
+replayed on the real `keyed()` / `<ForEnumerate>` by corpus/C11/01-f-c11-1-witness.ops. -/
+theorem C11_dom_order_witness : ¬ C11_dom_order_full := by
+  intro h
+  have := h witnessState [4, 3, 2, 1, 0] [] [] witnessState_wf witnessState_mounted (by decide)
+  revert this
+  decide
+
+/-- the witness is exactly outside the hypothesis of the partial theorem -/
+example : settledMonotone witnessState.hashed [4, 3, 2, 1, 0] = false := by decide
+
+/-- **DOM order, partial**: under the decidable hypothesis `settledMonotone from to` — on the items
+that are neither removed nor re-inserted in the DOM (in place, or moved in storage only because
+`diff` set `move_in_dom = false`), the old order and the new order agree — the parent's children
+after `rebuild` are `pre ++ blocks of to in order ++ marker :: post`, for any siblings `pre`, `post`
+and any block sizes; and the list is again `Mounted` (all invariants), so the theorem chains.
+The negation of the hypothesis is the known-finding class `dom-order-move-elided`. -/
+theorem C11_dom_order_partial (s : KState) (to : List Key) (pre post : List NodeId) (hs : Wf s)
+    (hm : Mounted pre post s) (hto : to.Nodup) (hsm : settledMonotone s.hashed to = true) :
+    (rebuild s to).w.kids
+      = pre ++ blocksOf (rebuild s to).w.storage ++ (rebuild s to).marker :: post ∧
+    Mounted pre post (rebuild s to) :=
+  ⟨(rebuild_mounted s to pre post hs hm hto hsm).ordered, rebuild_mounted s to pre post hs hm hto hsm⟩
+
+/-- non-vacuity: a mounted list with siblings on both sides and two-node items; an update that moves,
+adds and removes and satisfies the hypothesis -/
+example : ∃ (s : KState) (to : List Key) (pre post : List NodeId),
+    Wf s ∧ Mounted pre post s ∧ to.Nodup ∧ settledMonotone s.hashed to = true ∧
+    to ≠ s.hashed ∧ pre ≠ [] ∧ post ≠ [] ∧ (domMovedKeys s.hashed to) ≠ [] :=
+  ⟨{ (build 2 [0, 1, 2, 3] [100] 101).mount none with
+      w := { ((build 2 [0, 1, 2, 3] [100] 101).mount none).w with
+        kids := ((build 2 [0, 1, 2, 3] [100] 101).mount none).w.kids ++ [200], next := 201 } },
+    [3, 0, 5, 2], [100], [200],
+    ⟨by decide, by decide, by decide⟩, ⟨by decide, by decide, by decide, by decide, by decide⟩,
+    by decide, by decide, by decide, by decide, by decide, by decide⟩
+
+/-! ## histories -/
+
+/-- the states after each of a list of successive updates -/
+def rebuilds (s : KState) : List (List Key) → KState
+  | [] => s
+  | t :: ts => rebuilds (rebuild s t) ts
+
+/-- every step of the history satisfies `settledMonotone` (from = the previous key sequence) -/
+def settledHistory (frm : List Key) : List (List Key) → Bool
+  | [] => true
+  | t :: ts => settledMonotone frm t && settledHistory t ts
+
+/-- **histories, storage / identity / set_index**: after any list of duplicate-free updates the state is
+`Wf` and holds the last key sequence — hence `C11_storage_is_to`, `C11_identity` and `C11_set_index`
+hold at EVERY step of every history (their only hypothesis on the state is `Wf`). -/
+theorem C11_history (s : KState) (tos : List (List Key)) (hs : Wf s) (hto : ∀ t ∈ tos, t.Nodup) :
+    ∀ (ts₁ : List (List Key)) (t : List Key) (ts₂ : List (List Key)), tos = ts₁ ++ t :: ts₂ →
+      Wf (rebuilds s ts₁) ∧ (s.hashed :: ts₁).getLast? = some (rebuilds s ts₁).hashed ∧
+      Summary (rebuilds s ts₁).hashed t (somes (rebuilds s ts₁).w.storage)
+        (rebuild (rebuilds s ts₁) t).w := by
+  induction tos generalizing s with
+  | nil => intro ts₁ t ts₂ h; simp at h
+  | cons t0 tos ih =>
+    intro ts₁ t ts₂ h
+    cases ts₁ with
+    | nil =>
+      simp only [List.nil_append, List.cons.injEq] at h
+      obtain ⟨rfl, rfl⟩ := h
+      exact ⟨hs, rfl, rebuild_summary s t0 hs (hto t0 (by simp))⟩
+    | cons t1 ts₁ =>
+      simp only [List.cons_append, List.cons.injEq] at h
+      obtain ⟨rfl, rfl⟩ := h
+      have hwf := (C11_storage_is_to s t0 hs (hto t0 (by simp))).2.2.2.2
+      have := ih (rebuild s t0) hwf (fun t' ht' => hto t' (by simp [ht'])) ts₁ t ts₂ rfl
+      refine ⟨this.1, ?_, this.2.2⟩
+      rw [List.getLast?_cons_cons]
+      exact this.2.1
+
+/-- **histories, DOM order (partial)**: if every step of the history satisfies `settledMonotone`, the
+list is mounted in order (`pre ++ blocks ++ marker :: post`) after every step. A history leaves the
+scope of this theorem — and enters the known-finding class — at its first step that violates the
+hypothesis (`C11_dom_order_witness` is such a step). -/
+theorem C11_history_dom_order_partial (s : KState) (tos : List (List Key)) (pre post : List NodeId)
+    (hs : Wf s) (hm : Mounted pre post s) (hto : ∀ t ∈ tos, t.Nodup)
+    (hsm : settledHistory s.hashed tos = true) :
+    ∀ (ts₁ ts₂ : List (List Key)), tos = ts₁ ++ ts₂ →
+      Wf (rebuilds s ts₁) ∧ Mounted pre post (rebuilds s ts₁) := by
+  induction tos generalizing s with
+  | nil =>
+    intro ts₁ ts₂ h
+    have : ts₁ = [] := by
+      cases ts₁ with
+      | nil => rfl
+      | cons _ _ => simp at h
+    subst this
+    exact ⟨hs, hm⟩
+  | cons t0 tos ih =>
+    intro ts₁ ts₂ h
+    cases ts₁ with
+    | nil => exact ⟨hs, hm⟩
+    | cons t1 ts₁ =>
+      simp only [List.cons_append, List.cons.injEq] at h
+      obtain ⟨rfl, rfl⟩ := h
+      simp only [settledHistory, Bool.and_eq_true] at hsm
+      have ht0 := hto t0 (by simp)
+      have hwf := (C11_storage_is_to s t0 hs ht0).2.2.2.2
+      have hmo := rebuild_mounted s t0 pre post hs hm ht0 hsm.1
+      exact ih (rebuild s t0) hwf hmo (fun t' ht' => hto t' (by simp [ht'])) hsm.2 ts₁ ts₂ rfl
+
+/-- non-vacuity of the history hypothesis: three successive updates, each moving items -/
+example : settledHistory [0, 1, 2, 3] [[3, 0, 1, 2], [1, 2], [5, 1, 6, 2], []] = true := by decide
 
 end Leptos.Keyed
